@@ -288,6 +288,32 @@ def run_object(case, ctx, qr, rng, work, out):
                     g = safe_obs(ctx, qr, back[k + 1], "TimeAxis", {"via": "savedir/loaddir"})
                     if g is not None:
                         compare(ctx, obs(qr, objs[k], "TimeAxis"), g, {"kind": "TimeAxis", "via": "savedir/loaddir", "tag": k + 1})
+            # a directory filled over time by several objects in turn (automatic tags), including objects that were loaded from it:
+            # every save adds one entry, and every entry stays what was saved under it
+            d2 = os.path.join(work, "dir2")
+            pool = [make_object(qr, "TimeAxis", rng, work)[0] for _ in range(3)]
+            saved = []
+            nsteps = int(rng.integers(4, 9))
+            for step in range(nsteps):
+                if saved and rng.random() < 0.3:
+                    with ctx.lib("Saveable.loaddir (object to be saved again)"):
+                        cur = pool[0].loaddir(d2)
+                    who = cur[sorted(cur.keys())[int(rng.integers(len(cur)))]]
+                else:
+                    who = pool[int(rng.integers(len(pool)))]
+                with ctx.lib("Saveable.savedir (automatic tag)"):
+                    who.savedir(d2)
+                saved.append(obs(qr, who, "TimeAxis"))
+            with ctx.lib("Saveable.loaddir"):
+                back2 = pool[-1].loaddir(d2)
+            ctx.require("object-roundtrip", sorted(back2.keys()) == list(range(1, nsteps + 1)),
+                        {"via": "savedir history with automatic tags", "tags": [int(x) for x in sorted(back2.keys())], "saves": nsteps})
+            for k in range(nsteps):
+                if (k + 1) in back2:
+                    g = safe_obs(ctx, qr, back2[k + 1], "TimeAxis", {"via": "savedir history"})
+                    if g is not None:
+                        compare(ctx, saved[k], g, {"kind": "TimeAxis", "via": "savedir history with automatic tags", "tag": k + 1})
+            ctx.event("savedir_histories")
             # parcel helpers and file objects
             fn = os.path.join(work, "p.qrp")
             with ctx.lib("save_parcel/load_parcel"):
